@@ -84,10 +84,19 @@ func firstLock(fd *ast.FuncDecl) string {
 	if fd == nil || fd.Body == nil || len(fd.Body.List) == 0 {
 		return "unknown"
 	}
+	// the lock is the first statement and is released by a defer that is the second one: held for the whole call
+	if len(fd.Body.List) < 2 {
+		return "none"
+	}
+	d, ok := fd.Body.List[1].(*ast.DeferStmt)
+	if !ok {
+		return "none"
+	}
+	rel := exprName(d.Call.Fun)
 	switch {
-	case isCallTo(fd.Body.List[0], ".RLock"):
+	case isCallTo(fd.Body.List[0], ".RLock") && strings.HasSuffix(rel, ".RUnlock"):
 		return "rlock"
-	case isCallTo(fd.Body.List[0], ".Lock"):
+	case isCallTo(fd.Body.List[0], ".Lock") && strings.HasSuffix(rel, ".Unlock"):
 		return "lock"
 	}
 	return "none"
